@@ -3,7 +3,7 @@
 (* Property C11: the variable-key registry and the two fetchers            *)
 (* (variable.go).  km is the VariableKeyMap (name -> key).                 *)
 (***************************************************************************)
-EXTENDS Integers, Sequences, FiniteSets, TLC
+EXTENDS Encodings, FiniteSets, TLC
 
 Names(km) == DOMAIN km
 Keys(km) == {km[n] : n \in DOMAIN km}
@@ -51,4 +51,9 @@ Normalise(b) ==
     [] b.kind = "duration_ms" -> [t |-> "i", v |-> TruncDivR(b.raw, 1000)]  \* Duration / time.Second
     [] b.kind = "duration_sn" -> [t |-> "i", v |-> b.raw[1]]                \* <<seconds, nanoseconds of the same sign>>
     [] b.kind = "unix" -> [t |-> "i", v |-> b.raw]                         \* time.Time -> Unix seconds
+    \* a time.Time given by its UTC civil fields <<y, mo, d, hh, mi, ss>> (any nanoseconds, any location): Unix seconds
+    \* of the second it lies in, on limbs when outside the small-integer window (years 1 .. 9999)
+    [] b.kind = "time_civil" ->
+         LET u == UnixSecs(b.raw[1], b.raw[2], b.raw[3], b.raw[4], b.raw[5], b.raw[6]) IN
+         IF Fits31(u) /\ ToInt(u) > -1073741824 /\ ToInt(u) < 1073741824 THEN [t |-> "i", v |-> ToInt(u)] ELSE [t |-> "w", v |-> u]
 =============================================================================
